@@ -107,7 +107,7 @@ MCPresence == \E c \in Pick(Open), k \in Pick({"kAll", "kWO"}), w \in Pick(Words
     /\ Presence(c, k, w, "ok", status, chg, 1)
     /\ Emit([n |-> "presence", c |-> c, k |-> k, w |-> w, syn |-> "ok", status |-> status, chg |-> chg])
 
-MCEnd == \E c \in Pick(Open), how \in Pick({"disconnect", "drop", "cut", "garbage"}) :
+MCEnd == \E c \in Pick(Open), how \in Pick({"disconnect", "drop", "cut", "garbage", "panic"}) :
     /\ (Gen = "sim" /\ Fam \notin {"ending"}) => RandomElement(1..4) = 1      \* endings are rarer in long random sessions
     /\ In({"ending", "presence"}) \/ (Fam \in {"pubsub", "hostile"} /\ how = "drop")
     /\ End(c) /\ Emit([n |-> "end", c |-> c, how |-> how])
